@@ -62,7 +62,25 @@ MANIFEST = dict(
          'the matcher must index a table whose runtime value agrees with the ESCAPES literal; a fast path must look for '
          'every escaped character (obligation). The Tokenizer options in effect in parse (keyword-only defaults of '
          'Tokenizer.__init__ overridden by the call) are an obligation. KV/KvFlags.v read_flag is compared with _read_flag '
-         'directly (correspondence:read_flag).',
+         'directly (correspondence:read_flag). '
+         'Round 4: the public wrapper serialise() is executed symbolically into its execution paths (which buffer / file '
+         'every _serialise call and write goes to, what getvalue() reads, what is returned): gen_serpaths; delivery_ok '
+         '(every path hands the writes of one _serialise call, given the caller\'s start_indent, to the destination '
+         'unprocessed and returns the text / None; a path for every way of calling) is discharged in the kernel, and '
+         'serialise_delivery / serialise_file_and_returned_text_agree prove that for such paths the text reaching the '
+         'file or the returned string is the writer model\'s text (a pass over the finished text such as '
+         'textwrap.indent is rejected, with a computed witness). _read_flag is executed symbolically into a decision '
+         'tree gen_flagprog; read_flag_program_is_model proves that every tree accepted by flagprog_ok computes '
+         'read_flag of KV/KvFlags.v for all arguments / mappings / casefold functions. _serialise is also read as a '
+         'program of write / child-loop / store / mutating-call instructions gen_wprog: '
+         'writer_program_leaves_tree_unchanged (no store instruction => the tree comes back unchanged whatever a '
+         'store would do) and writer_program_writes_model_text. Predicate methods of the object (is_root(), '
+         'has_children()) are inlined where the writers test them. c01_property states the whole property once, with '
+         'its nine hypotheses (all decidable conditions on regenerated objects) visible; '
+         'c01_property_hypotheses_satisfiable and the obligation all_nine_hypotheses_... discharge them for the '
+         'reference and for the regenerated objects. allow_escapes=False: the C03 tokenizer model with the option off '
+         'is compared with Keyvalues.parse in correspondence:parse-chunked; computed witnesses that the round trip '
+         'fails under it; an oracle for trees that need no escaping.',
     note='Trusted: Coq kernel + vm_compute, translate/c01_kvser.py (incl. re._parser for the character set of the '
          'escape patterns; checked per character against escape_text), translate/c01_kvloop.py (the symbolic reading of '
          'the loop body: alias tracking of four variables, classification of error messages by prefix) and '
@@ -71,19 +89,25 @@ MANIFEST = dict(
          'tree under that meaning, and both are still compared with Keyvalues.parse by the exhaustive token-level and '
          'sampled text-level correspondences --, the C03 '
          'tokenizer model Text/Tokenizer.v (tied by C03\'s exhaustive small-scope correspondence; KV/KvLex.v is no longer '
-         'trusted: it is proved equal to it), CPython. _read_flag is not modelled: its verdicts enter as an arbitrary '
-         'predicate (theorems hold for all of them; correspondences record the real verdicts). allow_escapes=False, '
-         'escape_text(multiline=True) (no KV1 writer uses it), trees with a nameless node below the root, non-str '
-         'values, cyclic trees and the Cython tokenizer twin are outside the model. "Serialisation never changes the '
-         'tree" is a syntactic census (no store / mutating call on tree objects in the writers) plus the identity walk of '
-         'the search, not a semantic theorem. serialise(file) versus the returned string is searched only.',
+         'trusted: it is proved equal to it), CPython, translate/c01_kvaux.py (symbolic reading of _read_flag; the readings of serialise() and of the statement '
+         'list of _serialise live in translate/c01_kvser.py). The round-trip theorems hold for an arbitrary flag '
+         'predicate; c01_property instantiates it with the regenerated _read_flag. allow_escapes=False has no general '
+         'theorem (sampled correspondence + witnesses). escape_text(multiline=True) (no KV1 writer uses it), trees with '
+         'a nameless node below the root (the format cannot carry them: they are flattened into the parent), non-str '
+         'values (escape_text raises), cyclic trees and the Cython tokenizer twin are outside the model. '
+         '"Serialisation never changes the tree" for the deprecated export() is still the syntactic census plus the '
+         'identity walk of the search; for serialise()/_serialise it is the theorem about gen_wprog (the store '
+         'instruction is any statement that assigns to / deletes an attribute or item of a tree object or calls a '
+         'mutating method on one; method calls taken as pure must be one-line pure predicates of the class).',
 )
 
 # ------------------------------------------------------------------------------------------------ calls into the implementation
 # A fault can make the implementation loop or raise something unexpected: every call into it that depends on generated
 # input runs under an alarm, and both outcomes are turned into results (a failing input), never into a hung or crashed check.
 # A call takes well under a millisecond; the limit is four to five orders of magnitude above that, so load cannot trip it.
-IMPL_TIME_LIMIT = 30.0
+IMPL_TIME_LIMIT = 20.0
+UNVERIFIED = [False]      # set when a call was answered 'hang' without being made
+MAX_HANGS = 3      # after that many, the implementation is not called any more: every call answers 'hang' at once
 HANGS = [0]       # calls that hit the limit (shrinking stops at the first one: every further probe would cost the limit again)
 
 
@@ -106,6 +130,9 @@ def guarded(fn, *a, **kw):
     """fn(*a, **kw) under the alarm (main thread only; the handler is installed once, a call costs two setitimer calls)."""
     if _threading.current_thread() is not _MAIN_THREAD:
         return fn(*a, **kw)
+    if HANGS[0] >= MAX_HANGS:
+        UNVERIFIED[0] = True
+        raise ImplTimeout()
     if not _ARMED[0]:
         _signal.signal(_signal.SIGALRM, _on_alarm)
         _ARMED[0] = True
@@ -368,16 +395,44 @@ def impl_serialise(doc, opts, named: bool = False, writer: str = 'serialise') ->
 
 
 # ------------------------------------------------------------------------------------------------ parallel model evaluation
+def par_map(fn, items: list, workers: int) -> list:
+    """[fn(x) for x in items] on `workers` plain threads (results in the order of the items; an exception in fn is re-raised
+    here).  Not concurrent.futures: its executors share a module-level lock that is also taken around every fork, and the
+    harness forks (coqc with a preexec_fn) from several threads -- `RuntimeError: release unlocked lock` was seen once."""
+    out: list = [None] * len(items)
+    errs: list = []
+    nxt = [0]
+    lock = _threading.Lock()
+
+    def work():
+        while True:
+            with lock:
+                k = nxt[0]
+                nxt[0] += 1
+            if k >= len(items):
+                return
+            try:
+                out[k] = fn(items[k])
+            except BaseException as e:      # noqa: BLE001
+                errs.append(e)
+                return
+    ths = [_threading.Thread(target=work) for _ in range(max(1, min(workers, len(items))))]
+    for t in ths:
+        t.start()
+    for t in ths:
+        t.join()
+    if errs:
+        raise errs[0]
+    return out
+
+
 def eval_jobs(ck: Ck, jobs: list) -> list:
     """Evaluate [(name, expr)] with ck.coq_eval in parallel coqc processes (distinct scratch names); the order of the
     results is the order of the jobs, so nothing depends on timing."""
-    from concurrent.futures import ThreadPoolExecutor
     if not jobs:
         return []
-    with ThreadPoolExecutor(max_workers=min(8, len(jobs))) as ex:
-        futs = [ex.submit(ck.coq_eval, IMPORTS + IMPORTS_AUX, exprs if isinstance(exprs, list) else [exprs], f'{name}_{k}', 900, PRE)
-                for k, (name, exprs) in enumerate(jobs)]
-        return [f.result() for f in futs]
+    return par_map(lambda kj: ck.coq_eval(IMPORTS + IMPORTS_AUX, kj[1][1] if isinstance(kj[1][1], list) else [kj[1][1]],
+                                          f'{kj[1][0]}_{kj[0]}', 900, PRE), list(enumerate(jobs)), 12)
 
 
 # ------------------------------------------------------------------------------------------------ correspondence: serialise
@@ -700,7 +755,9 @@ Definition flag_tbl (t : list (KvBase.str * bool)) (s : KvBase.str) : bool := ex
 Definition chunk_case (c : ((list (list N) * N) * list (KvBase.str * bool)) * ((list kv + kv) + N)) : bool :=
   let cs := fst (fst (fst c)) in
   let n := (length (concat cs) + 2)%nat in
-  agree (parse_kv_reader gen_parsecfg (mkopts (snd (fst (fst c)))) gen_tables (flag_tbl (snd (fst c))) n n (chk_of_chunks cs))
+  let b := snd (fst (fst c)) in       (* option bits; + 16: allow_escapes=False *)
+  agree ((if b <? 16 then parse_kv_reader else parse_kv_reader_noesc)
+           gen_parsecfg (mkopts (b mod 16)) gen_tables (flag_tbl (snd (fst c))) n n (chk_of_chunks cs))
         (snd c).
 '''
 
@@ -718,10 +775,15 @@ def corr_chunked(ck: Ck) -> None:
         name, chunks = forms[i % len(forms)]
         bits = DEFAULT_OPT_BITS if rng.random() < 0.6 else rng.randrange(16)
         flags: dict = {}
-        res = impl_parse(list(chunks), flags, bits_opts(bits))
+        # a quarter of the cases with allow_escapes=False (the tokenizer model with the option off: KV/KvNoEsc.v)
+        noesc = i % 4 == 3
+        res = impl_parse(list(chunks), flags, dict(bits_opts(bits), allow_escapes=False) if noesc else bits_opts(bits))
+        if noesc:
+            bits += 16
         cases.append((chunks, bits, flags, res))
         ck.count('chunked_correspondence_cases')
         ck.hist('chunked_corr_form', name)
+        ck.hist('chunked_corr_allow_escapes', not noesc)
         if len(text) >= 4 and len(chunks) >= 2:
             ck.seen(('chunked', tuple(chunks), bits))
 
@@ -734,19 +796,21 @@ def corr_chunked(ck: Ck) -> None:
     lit = coq_list(
         f'((([{"; ".join(coq_chars(ch) for ch in c[0])}], {c[1]}), '
         f'[{"; ".join(f"({coq_chars(f)}, {coq_bool(v)})" for f, v in c[2].items())}]), {want(c[3])})' for c in cases)
-    vals = ck.coq_eval(IMPORTS_REFINE + ['SV.KV.KvEnum'], [f'bad_idx chunk_case 0 {lit}'], name='chunked', preamble=PRE_CHUNK)
+    vals = ck.coq_eval(IMPORTS_REFINE + ['SV.KV.KvEnum', 'SV.KV.KvNoEsc'], [f'bad_idx chunk_case 0 {lit}'], name='chunked',
+                       preamble=PRE_CHUNK)
     if vals is None:
         ck.obligation('correspondence:parse-chunked', False, 'model could not be evaluated')
         ck.tie_broken.append('correspondence parse-chunked: model evaluation failed')
         return
     bad = parse_coq_N_list(vals[0])
     ck.obligation('correspondence:parse-chunked', not bad,
-                  f'{len(cases)} chunk lists, parse_kv_reader over Text/Tokenizer.v + gen_tables (vm_compute) vs '
-                  f'Keyvalues.parse(chunks): {len(bad)} disagreements')
+                  f'{len(cases)} chunk lists (a quarter with allow_escapes=False), parse_kv_reader / parse_kv_reader_noesc over '
+                  f'Text/Tokenizer.v + gen_tables (vm_compute) vs Keyvalues.parse(chunks): {len(bad)} disagreements')
     if bad:
         c = min((cases[i] for i in bad), key=lambda c: sum(map(len, c[0])))
         ck.tie_broken.append('correspondence parse-chunked (Text/Tokenizer.v reader model + KV/KvParse.v vs Keyvalues.parse)')
-        ck.extra['chunked_disagreement'] = {'chunks': c[0], 'options': bits_opts(c[1]), 'flags': c[2], 'impl': c[3]}
+        ck.extra['chunked_disagreement'] = {'chunks': c[0], 'options': dict(bits_opts(c[1] % 16), allow_escapes=c[1] < 16),
+                                            'flags': c[2], 'impl': c[3]}
 
 
 # ------------------------------------------------------------------------------------------------ exhaustive token-level tie
@@ -989,8 +1053,8 @@ def tie_tables(ck: Ck, side: dict) -> None:
         c = chr(cp)
         want = c if (c in excl or c not in inv) else '\\' + inv[c]
         try:
-            got = tokenizer.escape_text(c)
-        except Exception:       # noqa: BLE001
+            got = guarded(tokenizer.escape_text, c)
+        except (ImplTimeout, Exception):       # noqa: BLE001
             got = None
         if got != want:
             bad.append(cp)
@@ -1188,9 +1252,22 @@ def map_strings(doc, fname, fvalue):
     return [go(t) for t in doc]
 
 
+def all_strings_unescaped(doc) -> bool:
+    from srctools.tokenizer import escape_text
+
+    def ok(t) -> bool:
+        try:
+            if guarded(escape_text, t[1]) != t[1] or (t[0] == 'L' and guarded(escape_text, t[2]) != t[2]):
+                return False
+        except (ImplTimeout, Exception):       # noqa: BLE001
+            return False
+        return t[0] == 'L' or all(ok(c) for c in t[2])
+    return all(ok(t) for t in doc)
+
+
 def options_expected(doc, po: dict):
     """What Keyvalues.parse(serialise(doc), **po) must return by theorems kv_roundtrip_options / _single_block."""
-    if po['single_block'] and doc:
+    if po.get('single_block') and doc:
         return ('node', doc[0])
     return ('ok', doc)
 
@@ -1243,11 +1320,17 @@ def search(ck: Ck) -> None:
         return False
 
     def report(key, what, doc, opts, extra=None):
-        if key in found:
+        if key in found or UNVERIFIED[0]:       # (nothing is reported on the strength of a call that was not made)
             return
         found[key] = (what, doc, opts, extra)
 
+    HANGS[0] = 0        # the search may see the implementation hang MAX_HANGS times by itself
     for i in range(n):
+        UNVERIFIED[0] = False
+        if HANGS[0] >= MAX_HANGS:
+            ck.notes.append(f'search stopped after {i} trees: the implementation did not return within {IMPL_TIME_LIMIT:.0f} s '
+                            f'{HANGS[0]} times')
+            break
         rng = ck.rng
         doc = SEARCH_CORPUS[i] if i < len(SEARCH_CORPUS) else gen_doc(rng)
         nodes, depth, special = tree_stats(doc)
@@ -1359,6 +1442,15 @@ def search(ck: Ck) -> None:
                 cls = options_fails(small, po, so)
                 report('roundtrip-options:' + fail_key('x', small, cls)[2:],
                        f'parse(serialise(t), {po}) is not the tree ({cls})', small, so, {'parse_options': po})
+            # allow_escapes=False: the reader leaves backslashes alone, so only trees none of whose strings is changed by
+            # escape_text can be expected back (KV/KvNoEsc.v: witnesses for the others); those must come back
+            if all_strings_unescaped(doc):
+                ck.count('search_no_escapes_roundtrips')
+                got = impl_parse(text, None, {'allow_escapes': False})
+                if got != ('ok', doc):
+                    report('roundtrip-no-escapes:' + (where_differs(doc, got[1] if got[0] == 'ok' else got) or 'differs'),
+                           'parse(serialise(t), allow_escapes=False) != t for a tree whose strings need no escaping', doc, opts,
+                           {'parse_options': {'allow_escapes': False}})
             # the deprecated writer
             ck.count('search_exports')
             d = roundtrip_fails(doc, {}, 'export')
@@ -1378,13 +1470,35 @@ def search(ck: Ck) -> None:
     ck.extra['search_violation_keys'] = sorted(found)
 
 
+# ------------------------------------------------------------------------------------------------ the C03 tokenizer tables
+def tokenizer_tables_translate():
+    """Gen/EscTables_gen.v through C02's translator.  C01 uses it for the constant tables of the *reading* side only (ESCAPES,
+    BARE_DISALLOWED, _OPERATORS, the Token values, the option defaults, casefold: `tables_match` looks at nothing else).  C02's
+    translator also reads escape_text -- the writing side, which C01 reads itself (translate/c01_kvser.py tr_escapes, with its
+    own obligations) -- into a pipeline, and is stricter about its spelling; when it fails closed, it is run again with that
+    one reading left out (an empty pipeline: unused here), so that a harmless respelling of escape_text is not an alarm of C01
+    and a fault in it is reported by C01's own obligations.  Every other reading of that translator stays fail-closed."""
+    from harness.common import TranslateError
+    try:
+        return c02_tables.translate()
+    except TranslateError as first:
+        orig = c02_tables._escape_pipeline
+        c02_tables._escape_pipeline = lambda tree, inv_map: ([], {})
+        try:
+            text, side = c02_tables.translate()
+        finally:
+            c02_tables._escape_pipeline = orig
+        side = dict(side)
+        side['escape_text_pipeline_not_read_by_c02_translator'] = str(first)
+        return text, side
+
+
 # ------------------------------------------------------------------------------------------------ Print Assumptions, in parallel
 def theorems_parallel(rec: Ck, props_file: str, ways: int = 3) -> None:
     """What Ck.theorems does (one `theorem:<name>` obligation per statement of the Props file, with the output of Print
     Assumptions), with the statements dealt over `ways` coqc processes: one process needs 20-35 s for the 50 statements on a
     loaded machine.  The obligations are recorded in the order of the file."""
     import re as _re
-    from concurrent.futures import ThreadPoolExecutor
     from harness.common import ROCQ, _split_assumptions
     txt = (ROCQ / props_file).read_text()
     names = _re.findall(r"^\s*(?:Theorem|Lemma|Corollary)\s+([A-Za-z0-9_']+)", txt, _re.M)
@@ -1394,8 +1508,12 @@ def theorems_parallel(rec: Ck, props_file: str, ways: int = 3) -> None:
     def one(k: int):
         body = f'Require Import {mod}.\n' + ''.join(f'Print Assumptions {n}.\n' for n in groups[k])
         return rec.coq_scratch(body, f'assumptions{k}')
-    with ThreadPoolExecutor(max_workers=ways) as ex:
-        outs = list(ex.map(one, range(ways)))
+    try:
+        outs = par_map(one, list(range(ways)), ways)
+    except Exception as e:      # noqa: BLE001   never silently: the theorem obligations would be missing from the evidence
+        rec.obligation(f'assumptions:{props_file}', False, f'Print Assumptions could not be run: {e!r}')
+        rec.tie_broken.append(f'Print Assumptions failed for {props_file}')
+        return
     got: dict = {}
     for k, (rc, out) in enumerate(outs):
         if rc != 0:
@@ -1428,11 +1546,16 @@ def run(ck: Ck) -> None:
     ck.trusted.append('Text/Tokenizer.v (reader-program model of Tokenizer, owned and tied by C03); KV/KvLex.v is proved equal '
                       'to it (kv_lexer_refines_tokenizer) for the regenerated tables')
     ck.trusted.append('translate/c02_tables.py (regenerates Gen/EscTables_gen.v, the tables of the C03 tokenizer model)')
+    ck.trusted.append('translate/c01_kvser.py tr_serialise (symbolic execution of the wrapper serialise(): buffers, write targets, '
+                      'return value) and translate/c01_kvaux.py (symbolic reading of _read_flag, the statement list of _serialise); '
+                      'the meaning of the generated objects is in KV/KvWriter.v, KV/KvFlagProg.v (compared with _read_flag on every '
+                      'run), KV/KvWProg.v')
     ck.assumptions += [
         'trees are finite, acyclic, values are str, only the root is nameless (Keyvalues.root / parse result)',
         'names contain no CR/LF unless parse is called with newline_keys=True; values contain none when '
         'newline_values=False; indent and start_indent consist of spaces and tabs',
-        'allow_escapes=True; _read_flag enters the theorems as an arbitrary predicate',
+        'allow_escapes=True for the theorems (allow_escapes=False: sampled correspondence and refutation witnesses only); '
+        'the round-trip theorems hold for an arbitrary flag predicate, c01_property uses the regenerated _read_flag',
     ]
     stage: dict = {}
     ck.extra['stage_wall_seconds'] = stage       # informative only: never influences a result
@@ -1443,7 +1566,7 @@ def run(ck: Ck) -> None:
     # refinement theorem kv_lexer_refines_tokenizer is instantiated for them.  When that translator fails closed (it is
     # another property's, and stricter about the spelling of escape_text than translate/c01_kvser.py), everything that
     # does not need its tables is still built and evaluated, so that C01's own named obligations point at the site.
-    ok_esc = ck.translate('EscTables_gen', c02_tables.translate)
+    ok_esc = ck.translate('EscTables_gen', tokenizer_tables_translate)
     # the token loop of Keyvalues.parse as a decision tree (symbolic execution of the loop body, path by path)
     ok_t = ck.translate('KVLoop_gen', c01_kvloop.translate) and ok_t
     # the glue around the anchored functions: the execution paths of the wrapper serialise(), _read_flag as a decision tree,
@@ -1546,6 +1669,9 @@ def run(ck: Ck) -> None:
         })
         if th2 is not None:
             th2.join()
+            if not rec2.obligations:        # the thread died: never silently
+                rec2.obligation('instance:inst_refine', False, 'the obligations over the tokenizer tables could not be evaluated')
+                rec2.tie_broken.append('instance obligations inst_refine could not be run')
             ck.obligations.extend(rec2.obligations)
             ck.tie_broken.extend(rec2.tie_broken)
             ck.notes.extend(rec2.notes)
@@ -1570,6 +1696,9 @@ def run(ck: Ck) -> None:
             fin(results[at:at + len(jobs)])
             at += len(jobs)
         th.join()
+        if not rec.obligations:             # the thread died: never silently
+            rec.obligation('assumptions:Props/C01.v', False, 'Print Assumptions could not be run')
+            rec.tie_broken.append('Print Assumptions failed for Props/C01.v')
         stage['  of which: waiting for Print Assumptions'] = round(time.time() - t_sub, 1)
         ck.obligations[at_theorems:at_theorems] = rec.obligations
         ck.axioms.update(rec.axioms)
